@@ -67,6 +67,13 @@ def cases(thorough):
         for wu, pu, box in [("m", "cm", 1.0), ("cm", "m", 4.0), ("au", "cm", 3.0e13)]:
             for w in (1 / 4, 1.0):
                 yield dict(base, block="B", dx=w, resolution=3, direction="z", origin=origins[0], win_unit=wu, pos_unit=pu, box=box)
+        # the origin written in another unit than the positions (and than the window)
+        for ou, pu, box in [("m", "cm", 1.0), ("km", "cm", 4.0), ("cm", "m", 2.0)]:
+            for o in origins[1:3]:
+                yield dict(base, block="B", dx=1 / 4, resolution=3, direction="z", origin=o, origin_unit=ou, pos_unit=pu, box=box)
+            if ndim == 3:
+                yield dict(base, block="B", dx=1 / 2, resolution=3, direction=["normal", [1, 2, -1]], origin=origins[1], origin_unit=ou, pos_unit=pu, box=box)
+                yield dict(base, block="B", dx=1 / 2, resolution=3, direction="top", origin=origins[1], origin_unit=ou, pos_unit=pu, box=box)
         # no window: the whole extent
         yield dict(base, block="B", resolution=4, direction="z", origin=origins[0])
         yield dict(base, block="B", resolution=3, direction="z")
@@ -81,6 +88,14 @@ def cases(thorough):
                 for (w, r) in ((2.0, 5), (1.5, 3), (1.0, 4), (2.0, {"x": 3, "y": 7})):
                     yield dict(base, block="W", dx=w, resolution=r, direction="z", origin=origins[0], virtual_threads=T_)
                 yield dict(base, block="W", dx=2.0, resolution=5, direction="z", origin=origins[0], vector_layer=True, virtual_threads=T_)
+        # block X: special values and element types of the data: inf / -inf / largest finite / denormal / -0.0 / negative cells are cells
+        # like any other; float32 and integer data show the same numbers
+        for sp in (["inf"], ["-inf", "inf"], ["fmax", "denorm", "negzero"], ["zero", "neg", "inf"]):
+            for off in (0, 1):
+                yield dict(base, block="X", dx=1.0, resolution=4, direction="z", origin=origins[0], special=sp, special_offset=off)
+            yield dict(base, block="X", dx=1 / 4, resolution=3, direction="z", origin=origins[3], special=sp, vector_layer=True)
+        for dtv in ("f4", "i8", "i4"):
+            yield dict(base, block="X", dx=1.0, resolution=4, direction="z", origin=origins[0], dens_dtype=dtv)
         # on-face block: origin exactly on the lattice
         for w in (1 / 4, 1.0):
             yield dict(base, block="F", dx=w, resolution=4, direction="z", origin=[0.5] * ndim)
